@@ -24,7 +24,11 @@ class C19(object):
             "there may be fewer time steps than variables; given to dist_from_timeseries as an array, a list of tuples or a "
             "list of lists. Sessions: 2-5 calls (distribution_from_data, dist_from_timeseries, counts_from_data, the three "
             "estimators) one after the other in one fresh process on equal data, mostly with the same word length, every "
-            "call judged exactly like a single call; non-trivial = a non-trivial call preceded by one with the same L")
+            "call judged exactly like a single call; non-trivial = a non-trivial call preceded by one with the same L. "
+            "distribution_from_data with base=None or no base at all: the base is then dit.ditParams['base'], left at its "
+            "default or set (linear, 2, e, 10, 0.5) for the call and restored. binned() on 2-d input: 1-4 series of 2-40 "
+            "samples as the columns of an array, a list of lists or a list of tuples, each series with a range and offset "
+            "of its own, judged series by series exactly like a 1-d call; bins / style sometimes left to their defaults")
     tolerances = {'counts and frequencies': 'exact (count / windows, one float division)', 'entropies': 'rtol 1e-9'}
     exhaustive = {'thorough': True}
     modelled = ("digamma comes from SciPy on both sides; binning is decided by the oracle (range, monotonicity, threshold "
@@ -131,6 +135,42 @@ class C19(object):
                               'form': rng.choice(['array', 'tuples', 'lists'])})
             yield {'kind': 'session', 'data': data, 'vector': vector, 'L': max(s['L'] for s in steps), 'base': 'linear',
                    'trim': True, 'h': 0, 'steps': steps}
+        # --- distribution_from_data without a base: the base is dit.ditParams['base'] (default, or set for the call)
+        for _ in range(n // 8):
+            k = rng.randint(1, 4)
+            ln = rng.randint(1, 30)
+            vector = rng.random() < 0.3
+            if vector:
+                data = [[rng.randrange(k), rng.randrange(2)] for _i in range(ln)]
+            else:
+                data = [[0]]
+                for _i in range(ln - 1):
+                    data.append([data[-1][0] if rng.random() < 0.4 else rng.randrange(k)])
+            L = rng.randint(1, min(ln, 4))
+            yield {'kind': 'dist', 'data': data, 'vector': vector, 'L': L, 'base': None, 'trim': rng.random() < 0.7, 'h': 0,
+                   'base_arg': rng.choice(['omitted', 'none']),
+                   'params_base': rng.choice(['default', 'default', 'linear', 2, 'e', 10, 0.5])}
+        # --- binned() on 2-d input: every column is a series of its own
+        for _ in range(n // 6):
+            ncols = rng.randint(1, 4)
+            m = rng.choice([rng.randint(2, 12), rng.randint(2, 40)])
+            cols, ties = [], []
+            for _j in range(ncols):
+                tie = rng.random() < 0.4
+                if tie:
+                    ts = [float(rng.randint(0, 5)) for _i in range(m)]
+                else:
+                    ts = rng.sample([i / 8.0 for i in range(-80, 81)], m)
+                scale = rng.choice([1.0, 1.0, 2.0 ** -10, 1024.0, 2.0 ** 20])
+                shift = rng.choice([0.0, 0.0, 64.0, -1024.0])
+                cols.append([x * scale + shift for x in ts])
+                ties.append(tie)
+            c = {'kind': 'binning', 'data': [[0]], 'vector': False, 'L': 1, 'base': 'linear', 'trim': True, 'h': 0,
+                 'cols': cols, 'ties': ties, 'bins': rng.randint(1, 9), 'style': rng.choice(['maxent', 'uniform']),
+                 'form': rng.choice(['array', 'array', 'lists', 'tuples']), 'defaults': False}
+            if rng.random() < 0.15:
+                c.update({'bins': 2, 'style': 'maxent', 'defaults': True})    # binned(ts): bins=2, style='maxent'
+            yield c
 
     def shrink(self, case):
         data = case['data']
@@ -279,7 +319,21 @@ class C19(object):
 
         if kind == 'dist':
             base = case['base']
-            d = distribution_from_data(pydata, L, trim=case['trim'], base=base)
+            if base is None:
+                # no base given: the documented fallback is dit.ditParams['base'], whatever it is at the time of the call
+                pb = case.get('params_base', 'default')
+                kw = {} if case.get('base_arg') == 'omitted' else {'base': None}
+                r.features += ['base-arg=%s' % case.get('base_arg', 'none'), 'ditParams-base=%s' % pb]
+                saved = dit.ditParams['base']
+                try:
+                    if pb != 'default':
+                        dit.ditParams['base'] = pb
+                    base = dit.ditParams['base']
+                    d = distribution_from_data(pydata, L, trim=case['trim'], **kw)
+                finally:
+                    dit.ditParams['base'] = saved
+            else:
+                d = distribution_from_data(pydata, L, trim=case['trim'], base=base)
             got = {}
             for o, v in zip(d.outcomes, d.pmf):
                 key = o if (L > 1 or isinstance(o, tuple) and vector is False and False) else o
@@ -293,7 +347,10 @@ class C19(object):
             want = {k: float(v) for k, v in expected.items()}
             r.detail = {'impl': {str(k): v for k, v in norm.items()}, 'model': {str(k): str(v) for k, v in expected.items()}}
             if d.get_base() != base:
-                r.oracle_fail = 'base of the inferred distribution is %r, requested %r' % (d.get_base(), base)
+                r.oracle_fail = ('base of the inferred distribution is %r, requested %r' % (d.get_base(), base)
+                                 if case['base'] is not None else
+                                 "base of the inferred distribution is %r; none was requested and dit.ditParams['base'] is %r"
+                                 % (d.get_base(), base))
             pos = {k: v for k, v in norm.items() if v != 0}
             if set(pos) != set(want):
                 r.mismatch = 'words: impl %s model %s' % (sorted(map(str, pos)), sorted(map(str, want)))
@@ -432,6 +489,8 @@ class C19(object):
         return None
 
     def run_binning(self, case, r, binned, drv):
+        if 'cols' in case:
+            return self.run_binning_2d(case, r, binned, drv)
         ts = np.array(case['ts'])
         bins = case['bins']
         style = case['style']
@@ -444,6 +503,44 @@ class C19(object):
             return r
         lab = [int(x) for x in lab]
         r.detail = {'ts': case['ts'], 'labels': lab}
+        self.judge_series(ts, lab, bins, style, case['ties'], r, drv)
+        return r
+
+    def run_binning_2d(self, case, r, binned, drv):
+        """binned() on 2-d input (rows = samples, columns = series): every column is discretised on its own, so each
+        column of the result is judged exactly like the result of a 1-d call on that series."""
+        ts2 = np.array(case['cols'], dtype=float).T
+        nsamp, ncols = ts2.shape
+        bins, style, form = case['bins'], case['style'], case.get('form', 'array')
+        arg = {'array': ts2, 'lists': ts2.tolist(), 'tuples': [tuple(row) for row in ts2.tolist()]}[form]
+        r.features += ['style=%s' % style, 'bins=%d' % bins, 'series=%d' % ncols, 'samples-as=%s' % form,
+                       'bins/style=%s' % ('defaults' if case.get('defaults') else 'passed'),
+                       'series-with-ties=%d' % sum(bool(t) for t in case['ties'])]
+        r.nontrivial = bins >= 2 and ncols >= 2 and any(len(set(c)) >= 2 for c in case['cols'])
+        try:
+            lab2 = binned(arg) if case.get('defaults') else binned(arg, bins=bins, style=style)
+        except Exception as e:  # noqa
+            r.oracle_fail = 'binned raised %s: %s' % (type(e).__name__, str(e)[:100])
+            return r
+        lab2 = np.asarray(lab2)
+        r.detail = {'ts': ts2.tolist(), 'labels': lab2.tolist()}
+        if lab2.shape != ts2.shape:
+            r.oracle_fail = ('binned returned an array of shape %s for %d series of %d samples (input shape %s): not one '
+                             'label per sample' % (lab2.shape, ncols, nsamp, ts2.shape))
+            return r
+        for j in range(ncols):
+            self.judge_series(ts2[:, j], [int(x) for x in lab2[:, j]], bins, style, case['ties'][j], r, drv)
+            if r.bad():
+                where = 'series %d of %d (column %d of the input): ' % (j + 1, ncols, j)
+                if r.oracle_fail:
+                    r.oracle_fail = where + r.oracle_fail
+                if r.mismatch:
+                    r.mismatch = where + r.mismatch
+                break
+        return r
+
+    def judge_series(self, ts, lab, bins, style, ties, r, drv):
+        """The clauses of the statement for one series `ts` and the labels `lab` binned() gave to its samples."""
         if len(lab) != len(ts):
             r.oracle_fail = 'not every sample was assigned a bin'
         elif any(x < 0 or x >= bins for x in lab):
@@ -481,7 +578,7 @@ class C19(object):
                 if ml is None or (int(ml) != l and not near):
                     r.mismatch = 'maxent bin of %r: impl %d, model %s' % (x, l, ml)
                     break
-        if style == 'maxent' and not case['ties'] and not r.oracle_fail:
+        if style == 'maxent' and not ties and not r.oracle_fail:
             cnt = [lab.count(i) for i in range(bins)]
             n = len(lab)
             # percentile thresholds (linear interpolation) put each bin within one sample of n/bins
